@@ -133,7 +133,9 @@ func (tt *TermTable) Bool(b bool) *Term {
 	}
 	return tt.mk("const", sortBool, 0, 0, 0, "")
 }
-func (tt *TermTable) F64(f float64) *Term { return tt.mk("const", sortF64, math.Float64bits(f), 0, 0, "") }
+func (tt *TermTable) F64(f float64) *Term {
+	return tt.mk("const", sortF64, math.Float64bits(f), 0, 0, "")
+}
 func (tt *TermTable) F32(f float32) *Term {
 	return tt.mk("const", sortF32, uint64(math.Float32bits(f)), 0, 0, "")
 }
@@ -1017,9 +1019,10 @@ func (tt *TermTable) addNormal(a, b *Term) *Term {
 // a finite constant c with |c| <= 2^52 into an integer comparison. Sound
 // because int->float conversion (RNE) is monotone and every integer of
 // magnitude <= 2^53 is represented exactly:
-//   float(x) <  c  <=>  x <  ceil(c)      float(x) <= c  <=>  x <= floor(c)
-//   c <  float(x)  <=>  x >  floor(c)     c <= float(x)  <=>  x >= ceil(c)
-//   float(x) == c  <=>  c integral and x == c
+//
+//	float(x) <  c  <=>  x <  ceil(c)      float(x) <= c  <=>  x <= floor(c)
+//	c <  float(x)  <=>  x >  floor(c)     c <= float(x)  <=>  x >= ceil(c)
+//	float(x) == c  <=>  c integral and x == c
 func (tt *TermTable) fpIntCmp(op string, a, b *Term) *Term {
 	var x *Term
 	var c float64
